@@ -109,7 +109,7 @@ func GzipWithConfig(config GzipConfig) echo.MiddlewareFunc {
 					// There are different reasons for cases when we have not yet written response to the client and now need to do so.
 					// a) handler response had only response code and no response body (ala 404 or redirects etc). Response code need to be written now.
 					// b) body is shorter than our minimum length threshold and being buffered currently and needs to be written
-					if !grw.wroteBody {
+					if !grw.wroteBody && !grw.minLengthExceeded {
 						if res.Header().Get(echo.HeaderContentEncoding) == gzipScheme {
 							res.Header().Del(echo.HeaderContentEncoding)
 						}
